@@ -53,13 +53,24 @@ SPECIAL = {
         'Sysctl': 'strv:--sysctl', 'LogOpt': 'strv:--log-opt', 'AddCapability': 'strvl:--cap-add', 'DropCapability': 'strvl:--cap-drop',
         'Environment': 'kv:--env', 'Label': 'kv:--label', 'Annotation': 'kv:--annotation', 'PodmanArgs': 'words', 'PublishPort': 'all:--publish',
         'AddDevice': 'devs:--device',
+        'UserNS': lambda v: ['--userns', v], 'UIDMap': 'strv:--uidmap', 'GIDMap': 'strv:--gidmap', 'SubUIDMap': lambda v: ['--subuidname', v],
+        'SubGIDMap': lambda v: ['--subgidname', v], 'GlobalArgs': 'words', 'EnvironmentFile': 'wordsabs:--env-file',
+        'NoNewPrivileges': ('bool', ['--security-opt=no-new-privileges'], []), 'SecurityLabelDisable': ('bool', ['--security-opt', 'label=disable'], []),
+        'SecurityLabelNested': ('bool', ['--security-opt', 'label=nested'], []), 'ReadOnly': ('bool', ['--read-only'], ['--read-only=false']),
+        'VolatileTmp': ('bool', ['--tmpfs', '/tmp:rw,size=512M,mode=1777'], []),
     },
-    'volume': {'Label': 'kv:--label', 'PodmanArgs': 'words', 'Driver': lambda v: ['--driver', v]},
-    'network': {'Label': 'kv:--label', 'Options': 'kv:--opt', 'PodmanArgs': 'words'},
-    'pod': {'PodmanArgs': 'words', 'PublishPort': 'all:--publish'},
-    'kube': {'LogDriver': lambda v: ['--log-driver', v], 'PublishPort': 'all:--publish', 'PodmanArgs': 'words'},
-    'image': {'PodmanArgs': 'words'},
-    'build': {'Label': 'kv:--label', 'Environment': 'kv:--env', 'Annotation': 'kv:--annotation', 'Secret': 'words:--secret', 'PodmanArgs': 'words'},
+    'volume': {'Label': 'kv:--label', 'PodmanArgs': 'words', 'Driver': lambda v: ['--driver', v], 'GlobalArgs': 'words',
+               'Copy': ('bool', ['--opt', 'copy'], ['--opt', 'nocopy']), 'Device': lambda v: ['--opt', 'device=' + v]},
+    'network': {'Label': 'kv:--label', 'Options': 'kv:--opt', 'PodmanArgs': 'words', 'GlobalArgs': 'words', 'Subnet': 'all:--subnet'},
+    'pod': {'PodmanArgs': 'words', 'PublishPort': 'all:--publish', 'GlobalArgs': 'words',
+            'UserNS': lambda v: ['--userns', v], 'UIDMap': 'strv:--uidmap', 'GIDMap': 'strv:--gidmap', 'SubUIDMap': lambda v: ['--subuidname', v],
+            'SubGIDMap': lambda v: ['--subgidname', v]},
+    'kube': {'LogDriver': lambda v: ['--log-driver', v], 'PublishPort': 'all:--publish', 'PodmanArgs': 'words', 'GlobalArgs': 'words',
+             'UserNS': lambda v: ['--userns', v], 'LogOpt': 'strv:--log-opt', 'ConfigMap': 'strvabs:--configmap',
+             'ExitCodePropagation': lambda v: ['--service-exit-code-propagation=' + v]},
+    'image': {'PodmanArgs': 'words', 'GlobalArgs': 'words'},
+    'build': {'Label': 'kv:--label', 'Environment': 'kv:--env', 'Annotation': 'kv:--annotation', 'Secret': 'words:--secret', 'PodmanArgs': 'words',
+              'GlobalArgs': 'words', 'Pull': lambda v: ['--pull=' + v]},
 }
 FN = {'container': 'from_container_unit', 'volume': 'from_volume_unit', 'network': 'from_network_unit', 'pod': 'from_pod_unit', 'kube': 'from_kube_unit',
       'image': 'from_image_unit', 'build': 'from_build_unit'}
@@ -179,6 +190,18 @@ def oracle(ctx):
                     others = [k2 for k2, kd2, _ in key_specs(ty) if kd2 in ('str', 'all', 'bool') and k2 != key and k2 + '=' not in ''.join(bl)]
                     if others:
                         extra = extra + [rnd.choice(others) + '=']
+                if rnd.random() < 0.35:
+                    # a second documented key WITH a value beside the key under test: any key of the unit's tables (independent of each
+                    # other by construction), or — for the user-namespace options, which podman takes side by side — another one of them
+                    tbl = [(k2, kd2) for k2, kd2, _ in key_specs(ty) if kd2 in ('str', 'all', 'bool') and k2 != key and k2 + '=' not in ''.join(bl + extra)]
+                    idmap = [('UserNS', 'keep-id'), ('UIDMap', '0:10000:10'), ('GIDMap', '0:20000:10'), ('SubUIDMap', 'subu'), ('SubGIDMap', 'subg')]
+                    sup = ctx.tables['supported'][G.SUP[ty]]
+                    if key in dict(idmap) and rnd.random() < 0.7 and [p for p in idmap if p[0] != key and p[0] in sup]:
+                        k2, v2 = rnd.choice([p for p in idmap if p[0] != key and p[0] in sup])
+                        extra = extra + [f'{k2}={v2}']
+                    elif tbl:
+                        k2, kd2 = rnd.choice(tbl)
+                        extra = extra + [k2 + '=' + ('true' if kd2 == 'bool' else 'companion')]
                 cases.append((ty, key, kind, spec, v, bl + extra))
     base_ops, new_ops, metas = [], [], []
     for ty, key, kind, spec, v, lines in cases:
@@ -195,13 +218,17 @@ def oracle(ctx):
         else:
             line = None
             exp_v = v
-        if kind == 'special' and not callable(spec):
+        if kind == 'special' and isinstance(spec, tuple):
+            val = rnd.choice(['true', 'false', 'yes', 'no', '1', '0', 'on', 'off'])
+            exp_v = val in ('true', 'yes', '1', 'on')
+            line = f'{key}={val}'
+        if kind == 'special' and not callable(spec) and not isinstance(spec, tuple):
             m = spec.split(':')
-            if m[0] in ('words', 'wordsp'):
+            if m[0] in ('words', 'wordsp', 'wordsabs'):
                 words = [v, 'w2']
                 line = key + '=' + ' '.join(dq(w) for w in words)
                 exp_v = words
-            elif m[0] in ('strv', 'strvl'):
+            elif m[0] in ('strv', 'strvl', 'strvabs'):
                 import re as _re
                 words = [w for w in [_re.sub(r'\s', '_', v).replace('\\', '_').replace('"', '_').replace("'", '_'), 'CAP_X']]
                 line = key + '=' + ' '.join(words)
@@ -254,6 +281,8 @@ def oracle(ctx):
             want = [spec, exp_v]
         elif kind == 'bool':
             want = [spec] if exp_v else [spec + '=false']
+        elif isinstance(spec, tuple):
+            want = spec[1] if exp_v else spec[2]
         elif callable(spec):
             w = spec(exp_v)
             if isinstance(w, tuple):   # replaces a default option value
@@ -267,6 +296,14 @@ def oracle(ctx):
             m = spec.split(':')
             if m[0] == 'words':
                 want = [x for w in exp_v for x in (([m[1]] if len(m) > 1 else []) + [w])]
+            elif m[0] in ('wordsabs', 'strvabs'):
+                # relative paths are resolved against the unit's directory (/q) and normalised; a leading specifier is left alone (C17)
+                import posixpath, re as _re2
+                def res_(w):
+                    if _re2.match(r'%[^%/]($|/)', w):
+                        return w
+                    return posixpath.normpath(w if w.startswith('/') else '/q/' + w)
+                want = [x for w in exp_v for x in [m[1], res_(w)]]
             elif m[0] == 'wordsp':
                 want = [x for w in exp_v for x in [m[1], m[2] + w]]
             elif m[0] == 'strv':
